@@ -4,6 +4,7 @@
 -/
 import GrogModel.Query
 import GrogModel.Lemmas.GraphDfs
+import GrogModel.Lemmas.Label
 namespace Grog
 
 /-! ### bytewise order -/
@@ -140,5 +141,27 @@ theorem printSorted_spec (g : BuildGraph) (idx : List Nat) :
   have := sortCompact_spec (labelStrings g idx)
   refine ⟨this.1, fun x => ?_⟩
   rw [printSorted, this.2 x, mem_labelStrings]
+
+/-- labels with colon-free package paths print injectively -/
+theorem toBytes_inj (l1 l2 : Label) (h1 : cColon ∉ l1.pkg) (h2 : cColon ∉ l2.pkg)
+    (h : l1.toBytes = l2.toBytes) : l1 = l2 := by
+  have h' : l1.pkg ++ cColon :: l1.name = l2.pkg ++ cColon :: l2.name := by
+    simpa [Label.toBytes, slash2] using h
+  have hp : l1.pkg = l2.pkg := by
+    have := congrArg (fun l => l.takeWhile (· != cColon)) h'
+    simpa [takeWhile_colon_append h1, takeWhile_colon_append h2] using this
+  have hn : l1.name = l2.name := by
+    rw [hp] at h'
+    have := List.append_cancel_left h'
+    simpa using this
+  cases l1; cases l2; simp_all
+
+/-- the trivial query selector (`--target-type=all`, no tags) on a host with `--all-platforms`
+    lets every node through -/
+theorem matchAt_trivial (g : BuildGraph) (plat : Bytes) (i : Nat) (n : Node) (hn : g.nodes[i]? = some n) :
+    g.matchAt (querySelector [] [] .all) ⟨plat, true⟩ i = true := by
+  simp only [BuildGraph.matchAt, BuildGraph.matchesAt, BuildGraph.platAt, hn, matchesFilters,
+    querySelector, patternsOK, typeOK, tagsOK, excluded, platformOK]
+  cases n.isTarget <;> simp
 
 end Grog
